@@ -1,11 +1,14 @@
 #!/bin/bash
-# tools/preserving.sh [tier] — every patch under /verif/preserving keeps all properties; the existing suite and ALL 20
+# tools/preserving.sh [tier [patch ...]] — every patch under /verif/preserving keeps all properties; the existing suite and ALL 20
 # checks must pass on each of them (no VIOLATION, exit 0).  Runs in scratch worktrees; /repo is untouched.
 cd /verif
 TIER=${1:-quick}
+shift 2>/dev/null
+# optional: the patches to run (default: all of preserving/*.diff)
+LIST="$*"; [ -n "$LIST" ] || LIST=$(ls preserving/*.diff)
 export GOFLAGS=-mod=mod GOPROXY=off GOSUMDB=off GOTOOLCHAIN=local
 rc=0
-for p in preserving/*.diff; do
+for p in $LIST; do
   WT=/tmp/pv-$$; git -C /repo worktree add --detach $WT HEAD -q || exit 2
   git -C $WT apply /verif/$p || { echo "$p: does not apply"; rc=1; }
   (cd $WT && go test -vet=off -count=1 . >/dev/null 2>&1) || { echo "$p: existing suite FAILS"; rc=1; }
